@@ -15,6 +15,9 @@ def main(tier, replay):
     run.assumptions = ['malloc never fails', 'hooks are pure observers', 'DONE leaves *start on the byte being processed ("last byte read")',
                        'strict-done: abstract machine models the postponed DONE (resting on an accepting state returns OK; the next call returns DONE)']
     jobs = l3check.jobs_for(tier, ('c10',))
+    # programs marked `// verif: no-multibyte` (heavy 64-bit arithmetic over several bytes) are left to the one-step checks and C14 in the quick tier
+    if tier == 'quick':
+        jobs = [j for j in jobs if '// verif: no-multibyte' not in j['src'] and 'gtfs-realtime' not in j['label']]   # gtfs: 64-bit shifts by symbolic amounts (thorough tier only)
     for j in jobs:
         j['L'] = L
         j['state_budget'] = (24, 8) if tier == 'quick' else (10 ** 6, 60)
